@@ -56,7 +56,7 @@ CandOf(c, gid) ==
   IN IF cs = {} THEN None ELSE CHOOSE x \in cs : TRUE
 CStep(c, nxt) ==
   \/ AddBegin(c) \/ AddTry(c, nxt) \/ AddInstall(c) \/ AddCount(c) \/ AddWalk(c, nxt)
-  \/ DelBegin(c) \/ DelRemove(c) \/ DelUncount(c) \/ NiCall(c) \/ Block(c)
+  \/ DelBegin(c) \/ DelRemove(c) \/ DelUncount(c) \/ NiCall(c) \/ Block(c) \/ BlockCount(c) \/ BlockUncount(c) \/ WakeCount(c) \/ WakeDone(c)
 FStep == FlushBegin \/ FlushNI \/ FlushEnd
 \* logged state
 LNh(st) == [n \in NIs |-> DOMAIN st.rib[n].nh]
